@@ -277,7 +277,8 @@ def minimise(engine, case, sig, budget=200, log=None):
 
 def write_replay(prop, engine, case, minimised, sig, res_min, tries):
     os.makedirs(os.path.join(VERIF, "replays"), exist_ok=True)
-    path = os.path.join(VERIF, "replays", "%s-%s-%d.json" % (prop, engine.name, case["seed"]))
+    tag = __import__("hashlib").sha1(json.dumps(sig, sort_keys=True).encode()).hexdigest()[:6]
+    path = os.path.join(VERIF, "replays", "%s-%s-%d-%s.json" % (prop, engine.name, case["seed"], tag))
     with open(path, "w") as f:
         json.dump({"property": prop, "engine": engine.name, "seed": case["seed"],
                    "signature": sig, "case": minimised, "original_case": case,
